@@ -689,17 +689,30 @@ def do_mutinf(ctx, rng, psi, vec, sites, kind, qt, case):
     L = len(sites)
     if L < 3:
         raise _Skip()
-    coords, mi = psi.mutinf_two_site()
+    n_r = [1, 1, 2, 0.5, 3, np.inf][int(rng.integers(6))]
+    mr = None if rng.random() < 0.6 else int(rng.integers(1, L))
+    case['options'] = {'n': str(n_r), 'max_range': mr}
+    ctx.count('mutinf.renyi' if n_r != 1 else 'mutinf.von_neumann')
+    coords, mi = psi.mutinf_two_site(max_range=mr, n=n_r)
+    exp_pairs = [(a, b) for a in range(L) for b in range(a + 1, L) if mr is None or b - a <= mr]
+    if sorted(map(tuple, np.asarray(coords).tolist())) != exp_pairs:
+        ctx.violation('mutinf_two_site:pairs', 'max_range %r: %r' % (mr, np.asarray(coords).tolist()[:8]), case)
+        return
 
     def ent(seg):
         rest = [k for k in range(L) if k not in seg]
         M = np.transpose(vec, list(seg) + rest).reshape(int(np.prod([sites[k].dim for k in seg])), -1)
         w = np.linalg.eigvalsh(M @ M.conj().T)
-        w = w[w > 1e-14]
-        return -np.sum(w * np.log(w))
+        if n_r == 1:
+            w = w[w > 1e-14]
+            return -np.sum(w * np.log(w))
+        if n_r == np.inf:
+            return -np.log(np.max(w))
+        w = np.clip(w, 0., None)  # (no cutoff: for n < 1 eigenvalues of 1e-14 still contribute 1e-7)
+        return np.log(np.sum(w**n_r)) / (1. - n_r)
 
     for (a, b), val in zip(np.asarray(coords).tolist(), np.asarray(mi).tolist()):
         exp = ent([a]) + ent([b]) - ent([a, b])
-        if not (abs(val - exp) <= 1e-8):
+        if not (abs(val - exp) <= (1e-8 if n_r >= 1 else 1e-6)):
             ctx.violation('mutinf_two_site:wrong', 'I(%d,%d) = %r expected %r' % (a, b, val, exp), case)
             return
